@@ -179,6 +179,8 @@ type frame struct {
 	depth    int
 	goMods   *ModSet
 	deferred []*ssa.Defer
+	goReadOnly []ssa.Value // local cells captured by goroutines that only load from them (kept across Wait)
+	loopPre  map[int]*State // state on (latest) entry to the loop with this ordinal, for atloop(k, e)
 }
 
 type VC struct {
